@@ -435,13 +435,13 @@ def run(ctx):
                               cat=c.get("cat", "corpus"), valid=c.get("valid", True), chunkings=c.get("chunkings"), name=os.path.basename(p)))
         except Exception as e:
             ctx.note("corpus file %s unreadable: %s" % (p, e))
-    counts = dict(layout=80, escq=30, lonebs=20, crlf=8, poststop=25) if ctx.quick else \
+    counts = dict(layout=60, escq=25, lonebs=15, crlf=6, poststop=20) if ctx.quick else \
         dict(layout=1200, escq=250, lonebs=150, crlf=50, poststop=300)
     for cat, n in counts.items():
         for _ in range(n):
             cases.append(gen_script(rng, cat))
     # invalid tails after exit (model-vs-binary only)
-    for _ in range(20 if ctx.quick else 150):
+    for _ in range(15 if ctx.quick else 150):
         c = gen_script(rng, "poststop")
         c["text"] += rng.choice([")", "))", "(foo)", " (check-sat", "(echo \"x\") )", ") (echo \"y\")", "(exit))"])
         c["valid"], c["cmds"], c["cat"] = False, None, "poststop-invalid"
